@@ -21,7 +21,7 @@ func init() {
 		ID:    "C05",
 		Level: "exploration",
 		Rule: "batches of type-1/type-2 requests handed to the generic batch issuer after crossing the wire (client Marshal -> BatchedTokenRequest.Unmarshal) or, every third batch, handed over in memory (where malformed elements may also be shorter than an element, empty, nil or a short view into longer storage): every sequence of length 1..3 (quick) / 1..4 (thorough) over 8 request kinds " +
-			"{type1 key A, type1 key A', type1 unknown key id, type1 malformed element (A), type1 malformed element (A'), type2 key B, type2 unknown key id, type2 malformed element} under 5 issuer configurations ({A}, {B}, {A,A',B}, and two with an always-refusing issuer of the same type and truncated key id registered before / after the real one), a sweep of the unknown-key-id kinds over every truncated key id no configured issuer carries, plus seeded sequences of length 5..40 and large batches of 63..128 requests (response lists around the 16384-byte varint boundary). " +
+			"{type1 key A, type1 key A', type1 unknown key id, type1 malformed element (A), type1 malformed element (A'), type2 key B, type2 unknown key id, type2 malformed element} under 8 issuer configurations ({A}, {B}, {A,A',B}, two with an always-refusing issuer of the same type and truncated key id registered before / after the real one, none at all, the same issuer twice, another order), a sweep of the unknown-key-id kinds over every truncated key id no configured issuer carries, plus seeded sequences of length 5..40 and large batches of 63..128 requests (response lists around the 16384-byte varint boundary). " +
 			"Oracle = executable model: entry i present iff some configured issuer has the request's type and last key-id byte and its own Evaluate of that request succeeds; the output decodes, has exactly n entries in order, present entries finalize under state i to a token valid under that issuer's key (circl FullEvaluate / rsa.VerifyPSS), absent ones are empty; the succeeding requests alone give an all-present batch. " +
 			"distinct_nontrivial = distinct (configuration, kind sequence) batches containing at least one failing and one succeeding request",
 		Floors:      []string{"batches_checked", "entries_present_valid", "entries_absent", "mixed_batches", "all_failing_batches", "all_succeeding_batches", "isolation_rechecked", "large_batches", "batches_handed_over_in_memory", "unknown_key_id_sweep"},
@@ -122,7 +122,12 @@ func (w *c05World) setup() {
 		{refusingIssuer{1, w.issA.TokenKeyID()}, batchIssuer1{w.issA}, refusingIssuer{2, w.issB.TokenKeyID()}, batchIssuer2{w.issB}},
 		{batchIssuer1{w.issA}, refusingIssuer{1, w.issA.TokenKeyID()}, batchIssuer2{w.issB}, refusingIssuer{2, w.issB.TokenKeyID()}, refusingIssuer{1, w.issAp.TokenKeyID()}},
 	}
-	w.cfgNames = []string{"{A}", "{B}", "{A,A',B}", "{refuse(A),A,refuse(B),B}", "{A,refuse(A),B,refuse(B),refuse(A')}"}
+	w.configs = append(w.configs,
+		[]batched.Issuer{}, // no issuer at all
+		[]batched.Issuer{batchIssuer1{w.issA}, batchIssuer1{w.issA}},                        // the same issuer configured twice
+		[]batched.Issuer{batchIssuer2{w.issB}, batchIssuer1{w.issAp}, batchIssuer1{w.issA}}, // types and keys in another order
+	)
+	w.cfgNames = []string{"{A}", "{B}", "{A,A',B}", "{refuse(A),A,refuse(B),B}", "{A,refuse(A),B,refuse(B),refuse(A')}", "{}", "{A,A}", "{B,A',A}"}
 }
 
 func (w *c05World) mkReq(kind c05Kind, r *core.Rand, inMemory bool) *c05Req {
@@ -420,7 +425,7 @@ func runC05(c *core.Ctx) {
 			}
 		}
 	}
-	c.Exhaustive(fmt.Sprintf("all request-kind sequences of length 1..%d over 8 kinds under 5 issuer configurations", maxLen))
+	c.Exhaustive(fmt.Sprintf("all request-kind sequences of length 1..%d over 8 kinds under 8 issuer configurations", maxLen))
 	// every truncated key id no configured issuer carries (0x00 and 0xff included): such a request is absent, its
 	// neighbours are served
 	{
